@@ -74,6 +74,32 @@ def check(ctx):
             ok = "isinstance(data, str)" in txt and "isinstance(data, int)" in txt and "bad_type(data, cls)" in txt
             ctx.check(ok, "C14.R2", co.qualname + ":bool", t, "bool coercion must accept only words (str) and integers", co, t, detail="str -> table, int -> bool(), else bad_type")
 
+    # per-target accept-sets: which classes of datum can reach a (non-identity) return of each branch
+    from ..escape import _Run
+    run = _Run(Analyzer(model), co, {"cls": T, "data": TOP}, {}, 0)
+    run.run()
+    want = {"cls is NoneType": {"none", "str"}, "cls is bool": {"str", "int", "bool"}, "cls is str": {"int", "float"}}
+    parents = {c: p for p in ast.walk(co.node) for c in ast.iter_child_nodes(p)}
+    got = {}
+    for ret, env in run.returns:
+        if norm(ret.value) == "data":
+            continue  # identity branch
+        p_, child, branch = parents.get(ret), ret, None
+        while p_ is not None and p_ is not co.node:
+            if isinstance(p_, ast.If) and norm(p_.test) in tests and any(child is s_ or any(child is x for x in ast.walk(s_)) for s_ in p_.body):
+                branch = norm(p_.test)
+            child = p_
+            p_ = parents.get(p_)
+        v = env.get("data")
+        if branch and v is not None and v.kind == "I":
+            got.setdefault(branch, set()).update(v.types - {"disc"})
+    for branch, tags in want.items():
+        g = got.get(branch, set())
+        node = [t for t, _ in chain if norm(t) == branch]
+        ctx.check(g == tags, "C14.R2", f"{co.qualname}:accepts[{branch}]", node[0] if node else co.node,
+                  f"under `{branch}` coerce() converts data of classes {sorted(g)} but the documented table allows {sorted(tags)}: {sorted(g ^ tags)} is converted / rejected against the table",
+                  co, node[0] if node else co.node, detail=f"{branch}: {sorted(tags)}")
+
     ctx.rule("C14.R3", "boolean word table == documented table; case-insensitive both ways; '' is the only None word", floor=3)
     pairs = model.module_value(COERCION, "_bool_pairs")
     ctx.require(isinstance(pairs, ast.Tuple), "_bool_pairs is not a tuple literal")
@@ -148,6 +174,8 @@ def mutants(mb):
     mb.add_text("list-branch", C, "    elif cls is str:\n        if isinstance(data, (int, float))", "    elif cls is list:\n        return [data]  # type: ignore\n    elif cls is str:\n        if isinstance(data, (int, float))", "C14.R2", "branches")
     mb.add_text("else-returns", C, "    else:\n        raise bad_type(data, cls)\n\n\nCoerce", "    else:\n        return data\n\n\nCoerce", "C14.R2", "else")
     mb.add_text("str-from-bool", C, "        if isinstance(data, (int, float)) and not isinstance(data, bool):\n            return str(data)", "        if isinstance(data, (int, float)):\n            return str(data)", "C14.R2", "str")
+    mb.add_text("none-branch-negated", C, "if data is None or (isinstance(data, str) and data in STR_NONE_VALUES):", "if data is not None or (isinstance(data, str) and data in STR_NONE_VALUES):", "C14.R2", "NoneType")
+    mb.add_text("bool-from-anything", C, "        elif isinstance(data, int):\n            return bool(data)  # type: ignore", "        elif not isinstance(data, int):\n            return bool(data)  # type: ignore", "C14.R2", "bool")
     mb.add_text("extra-bool-word", C, '    ("ko", "ok"),\n', '    ("ko", "ok"),\n    ("nope", "yep"),\n', "C14.R3", "_bool_pairs")
     mb.add_text("case-sensitive-lookup", C, "return STR_TO_BOOL[data.lower()]", "return STR_TO_BOOL[data]", "C14.R3", "lowercase")
     mb.add_text("none-words", C, 'STR_NONE_VALUES = {""}', 'STR_NONE_VALUES = {"", "null", "none"}', "C14.R3", "STR_NONE_VALUES")
